@@ -213,7 +213,9 @@ int main(int argc, char **argv) {
 		int n = parse_schedule(argc > 3 ? argv[3] : ""); obs a; for (int k = 0; k < 2; k++) { vs_prefix_len = n; vs_begin(); body(); vs_end(); if (k == 0) a = last; }
 		printf("replay row=%s: ret=%d out=%zu | again ret=%d out=%zu | baseline out=%zu\n", rowname, a.r, a.tout, last.r, last.tout, base_len); check_one(); printf("fails=%ld\n", h_fails); return h_fails != 0; }
 	int thorough = !strcmp(argv[3], "thorough"); int shard = atoi(argv[4]), nsh = atoi(argv[5]);
-	vs_bounds b = { R->bp + ((thorough && R->threads <= 2 && !R->early) ? 1 : 0), R->bt + (thorough && R->bt ? 1 : 0), R->bs };
+	// thorough: one more preemption / expiry for the 2-thread rows of the quick tier; the thorough-only rows are the bigger scripts and keep their listed bounds
+	int bump = thorough && R->tier == 0;
+	vs_bounds b = { R->bp + ((bump && R->threads <= 2 && !R->early) ? 1 : 0), R->bt + (bump && R->bt ? 1 : 0), R->bs };
 	if (argc > 8) { b.preemptions = atoi(argv[6]); b.timeouts = atoi(argv[7]); b.spurious = atoi(argv[8]); }
 	vs_allow_spurious = b.spurious > 0;
 	if (getenv("VS_MAX_EXEC")) { vs_max_exec = atol(getenv("VS_MAX_EXEC")); vs_dump_path = getenv("VS_DUMP"); vs_resume_path = getenv("VS_RESUME"); }
